@@ -139,9 +139,16 @@ class P:
                 self_mut = self.at('id', 'mut')
                 if self_mut:
                     self.next()
-                if self.at('p', '('):   # tuple pattern: keep opaque
+                if self.at('p', '('):   # tuple pattern
                     j = match_close(self.t, self.i)
                     name = self.text(self.i, j + 1)
+                    try:
+                        sub = P(self.t, self.i, j + 1)
+                        pat = sub.pattern1()
+                        if sub.i == j + 1:
+                            name = ('pat', name, pat)
+                    except BodyError:
+                        pass
                     self.i = j + 1
                 else:
                     name = self.expect('id')
@@ -847,6 +854,8 @@ class ToLean:
         parts = []
         for name, e in lets:
             ve = self.expr(e)
+            if isinstance(name, (tuple, list)):
+                name = name[1]
             if name == '_':
                 parts.append(('seq', ve))
             elif name.startswith('('):
@@ -1083,7 +1092,12 @@ class ToRx:
         parts = []
         for name, e in b['lets']:
             ve = self.expr(e)
-            if name == '_':
+            if isinstance(name, (tuple, list)):
+                try:
+                    parts.append(('letpat', self.pat(name[2]), ve))
+                except BodyError:
+                    parts.append(('seq', self.opaque('let ' + name[1])))
+            elif name == '_':
                 parts.append(('seq', ve))
             elif name.startswith('('):
                 parts.append(('seq', self.opaque('let ' + name)))
@@ -1093,6 +1107,8 @@ class ToRx:
         for p in reversed(parts):
             if p[0] == 'seq':
                 res = '(.seq %s %s)' % (p[1], res)
+            elif p[0] == 'letpat':
+                res = '(.letPat %s %s %s)' % (p[1], p[2], res)
             else:
                 res = '(.letIn %d %s %s)' % (p[1], p[2], res)
         self.scope = saved
@@ -1236,6 +1252,8 @@ class ToRx:
             if len(a) == 1:
                 return '(.call1 %d %s)' % (c, a[0])
             raise BodyError('macro rule arity')
+        if k == 'macro' and e[1] == 'write' and len(e[2]) == 2 and e[2][1][0] == 'strlit':
+            return '(.write0 %s %s)' % (self.expr(e[2][0]), bytes_lit(e[2][1][1]))
         if k == 'macro' and e[1] == 'write' and len(e[2]) in (3, 4) and e[2][1][0] == 'strlit':
             dst = self.expr(e[2][0])
             fmt = bytes_lit(e[2][1][1])
